@@ -274,9 +274,9 @@ class PandasCheckBackend(BaseCheckBackend):
         """Postprocesses the result of applying the check function."""
         assert check_obj.shape == check_output.shape
 
-        for col, dtype in check_output.dtypes.items():
-            if check_output[col].empty and dtype != bool:
-                check_output[col] = check_output[col].astype(bool)
+        if len(check_output) == 0:
+            # all columns at once: column labels may be repeated
+            check_output = check_output.astype(bool)
 
         if check_obj.index.equals(check_output.index) and self.check.ignore_na:
             check_output = check_output | check_obj.isna()
